@@ -21,9 +21,9 @@ var (
 	// P is 2^130 − 5.
 	P = new(big.Int).Sub(new(big.Int).Lsh(one, 130), five)
 	// Two130 is 2^130.
-	Two130  = new(big.Int).Lsh(one, 130)
-	two128  = new(big.Int).Lsh(one, 128)
-	mask130 = new(big.Int).Sub(Two130, one)
+	Two130   = new(big.Int).Lsh(one, 130)
+	two128   = new(big.Int).Lsh(one, 128)
+	mask130  = new(big.Int).Sub(Two130, one)
 	clamp, _ = new(big.Int).SetString("0ffffffc0ffffffc0ffffffc0fffffff", 16)
 )
 
